@@ -7,6 +7,7 @@ package main
 //   insp <name> <id> <strct> <gval>            message built from the tree, then pogs.Insert over it -> resulting struct tree
 //   rt2 <name> <id> <gval> <gval>              two pogs.Insert into one struct, then pogs.Extract
 //   hostile <name> <arena> <T> <D> <segs>      pogs.Extract from a hostile message: ok/err/PANIC/HANG, allocation vs budget (hostile.go)
+//   ext2 <name> <id> <strctA> <strctB>         Extract A then B into one destination: = fresh extraction of B, A's slices intact
 //   ext <name> <id> <strct>                    message built from the tree -> pogs.Extract (+ Go-side comparison with the generated getters)
 //   gen <name> <id> <strct>                    message built from the tree -> generated getters
 
@@ -62,6 +63,18 @@ func doExtract(mn *mnode, st capnp.Struct) (res string, v reflect.Value) {
 		return "err", v
 	}
 	return "ok", v
+}
+
+func safeExtract(mn *mnode, v reflect.Value, st capnp.Struct) (res string) {
+	defer func() {
+		if e := recover(); e != nil {
+			res = "panic"
+		}
+	}()
+	if err := pogs.Extract(v.Interface(), mn.node.Id(), st); err != nil {
+		return "err"
+	}
+	return "ok"
 }
 
 func parseValue(t *toks, mn *mnode) reflect.Value {
@@ -179,6 +192,40 @@ func runCase(line string) (kind, impl, class string, nontrivial bool) {
 			r += " INACTIVE-WRITTEN"
 		}
 		return kind, r, ms.name + "/ok", true
+	case "ext2":
+		// two Extracts into the SAME destination: the result must be the one of a fresh extraction
+		// of the second message (list elements freshly zeroed: no stale union members), and the
+		// slices of the first result, kept by the caller, must stay intact
+		a := parseStruct(t)
+		b := parseStruct(t)
+		stA := buildStruct(newSeg(), a)
+		stB := buildStruct(newSeg(), b)
+		v := reflect.New(mn.goType)
+		if err := safeExtract(mn, v, stA); err != "ok" {
+			return kind, err + "1", ms.name + "/" + err + "1", true
+		}
+		first := reflect.New(mn.goType).Elem()
+		first.Set(v.Elem()) // the caller keeps the value (shares the slices' backing arrays)
+		snap := rootLists(mn, first)
+		r := safeExtract(mn, v, stB)
+		if r != "ok" {
+			return kind, r, ms.name + "/" + r, true
+		}
+		g := &gprinter{}
+		g.gstruct(mn, v.Elem())
+		r = "ok" + g.sb.String()
+		if fr, fresh := doExtract(mn, stB); fr == "ok" {
+			if fs, _ := gvalOut(mn, fresh.Elem()); "ok "+fs != r {
+				r += " REUSE-DIFF fresh " + Trunc(fs, 300)
+			}
+		}
+		if g.inactiveNonZeroInList {
+			r += " INACTIVE-WRITTEN"
+		}
+		if rootLists(mn, first) != snap {
+			r += " ALIAS-CLOBBERED was" + Trunc(snap, 300)
+		}
+		return kind, r, ms.name + "/ok", true
 	case "ext", "gen":
 		a := parseStruct(t)
 		st := buildStruct(newSeg(), a)
@@ -248,7 +295,7 @@ func runC19(out *Out, r *Rand, tier string, replay []string) {
 	if tier == "thorough" {
 		n = 600
 	}
-	g := &gen{r: r}
+	g := &gen{r: r, forceRootWhich: -1}
 	for _, ms := range schemas {
 		root := ms.root
 		for i := 0; i < n; i++ {
@@ -275,6 +322,15 @@ func runC19(out *Out, r *Rand, tier string, replay []string) {
 			do(fmt.Sprintf("gen %s %d %s", ms.name, root.id, a))
 			a = g.astruct(root, 0)
 			do(fmt.Sprintf("ext %s %d %s", ms.name, root.id, a))
+			// two Extracts into one destination (same root member half of the time)
+			a = g.astruct(root, 0)
+			g.forceRootWhich = -1
+			if root.hasDisc && g.r.Bool() && len(a.data) >= int(root.discOff)*2+2 {
+				g.forceRootWhich = int(a.data[root.discOff*2]) | int(a.data[root.discOff*2+1])<<8
+			}
+			b := g.astruct(root, 0)
+			g.forceRootWhich = -1
+			do(fmt.Sprintf("ext2 %s %d %s %s", ms.name, root.id, a, b))
 			// C01/C02 for Extract: hostile messages, small and default limits
 			for k := 0; k < 3; k++ {
 				do(g.hostileCase(ms))
